@@ -14,25 +14,25 @@ structure CapFree (g : Graph) (cap init : ℚ) : Prop where
   init0 : 0 ≤ init
   initc : init ≤ cap
 
-/-- the grid is complete for the instance: it contains every service time of every valid route -/
+/-- the grid is complete for the instance: it contains every service time of every valid route (the route clock
+    starts when the depot's window opens) -/
 def CompleteGrid (I : ArcInst) (cap init : ℚ) : Prop :=
-  ∀ r, C06.ValidRoute I.g cap init r → ∀ t ∈ serviceTimes I.g 0 0 r.tail, t ∈ I.T
+  ∀ r, C06.ValidRoute I.g cap init r → ∀ t ∈ serviceTimes I.g 0 (I.g.lo 0) r.tail, t ∈ I.T
 
 /-! ## the two directions of the arc-based correspondence -/
 
 /-- **reference ⇒ arc-based** (complete grid): the moves of the routes of a reference partition are selected by a
     feasible binary vector of equal cost -/
 theorem reference_to_arc (I : ArcInst) (hw : C05.WF I) (cap init : ℚ)
-    (hdep : I.g.lo 0 ≤ 0) (hdep0 : leE 0 (I.g.hi 0) = true)
     (hnoself : I.g.hasArc 0 0 = false) (hgrid : CompleteGrid I cap init)
     (rs : List (List ℕ)) (hp : IsPartition I.g cap init rs) :
     ∃ x, IsBin I.data.n x ∧ I.data.feasibleB x = true ∧
       I.data.objective x = partitionCost I.g cap init rs := by
   obtain ⟨hvalid, hnd, hcnt⟩ := hp
-  let mv : List ℕ → List ATup := fun r => movesOfRoute r (serviceTimes I.g 0 0 r.tail)
+  let mv : List ℕ → List ATup := fun r => movesOfRoute r (serviceTimes I.g 0 (I.g.lo 0) r.tail)
   have hrep : ∀ r ∈ rs, C05.IsDepotRoute (mv r) ∧ (∀ u ∈ mv r, I.admissible u = true) ∧
       ((mv r).map fun u => C05.arcCost I.g u.1 u.2.2.1).sum = routeCost I.g cap init r :=
-    fun r hr => arc_route_representable I hw cap init r (hvalid r hr) hdep hdep0 (hgrid r (hvalid r hr))
+    fun r hr => arc_route_representable I hw cap init r (hvalid r hr) (hgrid r (hvalid r hr))
   have hfacts : ∀ r ∈ rs, (mv r).Nodup ∧ (∀ u ∈ mv r, u.1 ∈ r ∧ u.2.2.1 ∈ r) ∧
       (∀ c, c ≠ 0 → ((mv r).filter fun u => u.2.2.1 = c).length = if decide (c ∈ r) = true then 1 else 0) :=
     fun r hr => Compose2.route_moves_facts I.g cap init r (hvalid r hr)
@@ -76,9 +76,10 @@ theorem reference_to_arc (I : ArcInst) (hw : C05.WF I) (cap init : ℚ)
   exact List.map_congr_left (fun r hr => (hrep r hr).2.2)
 
 /-- **arc-based ⇒ reference**: the routes decoded from a feasible binary vector are a reference partition of
-    equal cost (no grid hypothesis needed; the depot window opens at 0 so no move leaves before time 0) -/
+    equal cost (no grid hypothesis needed; no admissible move leaves the depot before the depot opens, which is
+    when the reference clock starts, so no hypothesis on the depot's window is needed either) -/
 theorem arc_to_reference (I : ArcInst) (hw : C05.WF I) (hpos : C05.PosTimes I.g) (cap init : ℚ)
-    (hcf : CapFree I.g cap init) (hlo : 0 ≤ I.g.lo 0) (hnoself : I.g.hasArc 0 0 = false)
+    (hcf : CapFree I.g cap init) (hnoself : I.g.hasArc 0 0 = false)
     (x : Vec) (hx : IsBin I.data.n x) (hf : I.data.feasibleB x = true) :
     ∃ rs, IsPartition I.g cap init rs ∧ partitionCost I.g cap init rs = I.data.objective x := by
   have hl : C05.Local I x := (C05.arc_feasible_iff_local I hw x hx).1 hf
@@ -88,7 +89,7 @@ theorem arc_to_reference (I : ArcInst) (hw : C05.WF I) (hpos : C05.PosTimes I.g)
   let nodes : List ATup → List ℕ := fun r => 0 :: r.map fun u => u.2.2.1
   have hval : ∀ r ∈ routes, C06.ValidRoute I.g cap init (nodes r) ∧
       routeCost I.g cap init (nodes r) = (r.map fun u => C05.arcCost I.g u.1 u.2.2.1).sum :=
-    fun r hr' => Compose2.arc_route_valid I hw cap init hcf.dem hcf.init0 hcf.initc hlo (C05.sel I x)
+    fun r hr' => Compose2.arc_route_valid I hw cap init hcf.dem hcf.init0 hcf.initc (C05.sel I x)
       (C05.sel_admissible I hw x) hl.1 r (hr r hr').1 (hr r hr').2 (hndr r hr')
   refine ⟨routes.map nodes, ⟨?_, ?_, ?_⟩, ?_⟩
   · intro r hr'
@@ -144,34 +145,25 @@ theorem arc_to_reference (I : ArcInst) (hw : C05.WF I) (hpos : C05.PosTimes I.g)
 /-- **arc-based on a complete grid = reference VRPTW without capacity**: the achievable costs of the
     arc-based model are exactly the costs of reference partitions (hence equal feasibility and equal optimum).
 
-    Statement change: the hypothesis `hlo : 0 ≤ I.g.lo 0` was added (with `hdep` it says that the depot window
-    opens exactly at the reference start time 0).  Without it the direction arc ⇒ reference is false: the
-    reference clock of a route starts at 0, but a move of the arc-based model may leave the depot at a grid time
-    `s < 0` inside a depot window that opens before 0, and so reach a customer whose window closes before the
-    reference vehicle can be there; see `arc_complete_grid_eq_reference_original_false` below for a
-    concrete instance. -/
+    No hypothesis on the depot's window is needed: the reference clock of a route starts when the depot opens
+    (`g.lo 0`), and a move of the arc-based model leaves the depot at a grid time inside the depot's window, i.e.
+    not before that.  (While the reference clock was pinned to the literal time 0 the statement needed
+    `lo 0 ≤ 0`, `0 ≤ lo 0` and `0 ≤ hi 0`, and was false without `0 ≤ lo 0`; the former counterexample
+    `ArcCounter` is kept below as an instance on which the equality now holds.) -/
 theorem arc_complete_grid_eq_reference (I : ArcInst) (hw : C05.WF I) (hpos : C05.PosTimes I.g) (cap init : ℚ)
-    (hcf : CapFree I.g cap init) (hdep : I.g.lo 0 ≤ 0) (hlo : 0 ≤ I.g.lo 0) (hdep0 : leE 0 (I.g.hi 0) = true)
+    (hcf : CapFree I.g cap init)
     (hnoself : I.g.hasArc 0 0 = false) (hgrid : CompleteGrid I cap init) (c : ℚ) :
     (∃ x, IsBin I.data.n x ∧ I.data.feasibleB x = true ∧ I.data.objective x = c)
       ↔ (∃ rs, IsPartition I.g cap init rs ∧ partitionCost I.g cap init rs = c) := by
   constructor
   · rintro ⟨x, hx, hf, hc⟩
-    obtain ⟨rs, hrs, hcost⟩ := arc_to_reference I hw hpos cap init hcf hlo hnoself x hx hf
+    obtain ⟨rs, hrs, hcost⟩ := arc_to_reference I hw hpos cap init hcf hnoself x hx hf
     exact ⟨rs, hrs, hcost.trans hc⟩
   · rintro ⟨rs, hrs, hc⟩
-    obtain ⟨x, hx, hf, hcost⟩ := reference_to_arc I hw cap init hdep hdep0 hnoself hgrid rs hrs
+    obtain ⟨x, hx, hf, hcost⟩ := reference_to_arc I hw cap init hnoself hgrid rs hrs
     exact ⟨x, hx, hf, hcost.trans hc⟩
 
-/-! ### why `0 ≤ lo 0` was added: a counterexample to the original statement -/
-
-/-- the statement of `arc_complete_grid_eq_reference` as originally posed (without `0 ≤ lo 0`) -/
-def arc_complete_grid_eq_reference_original_statement : Prop :=
-  ∀ (I : ArcInst) (_ : C05.WF I) (_ : C05.PosTimes I.g) (cap init : ℚ)
-    (_ : CapFree I.g cap init) (_ : I.g.lo 0 ≤ 0) (_ : leE 0 (I.g.hi 0) = true)
-    (_ : I.g.hasArc 0 0 = false) (_ : CompleteGrid I cap init) (c : ℚ),
-    (∃ x, IsBin I.data.n x ∧ I.data.feasibleB x = true ∧ I.data.objective x = c)
-      ↔ (∃ rs, IsPartition I.g cap init rs ∧ partitionCost I.g cap init rs = c)
+/-! ### a depot that opens before time 0: the former counterexample is now a positive instance -/
 
 namespace ArcCounter
 
@@ -227,51 +219,72 @@ theorem capFree : CapFree I.g 0 0 := by
   | 1 => decide +kernel
   | i + 2 => simp [Graph.demand, I, g]
 
-/-- the reference vehicle leaves at time 0 and reaches the customer at time 2, after its window closed -/
-theorem no_valid_route (r : List ℕ) : ¬ C06.ValidRoute I.g 0 0 r := by
-  intro hr
-  obtain ⟨j, rest, rfl, _, _⟩ := Compose2.validRoute_shape hr
-  have hf := hr.2.2.2.2
-  simp only [List.tail_cons] at hf
-  rw [C06.follow] at hf
-  by_cases hj : j = 1
-  · subst hj
-    have h1 : I.g.arc? 0 1 = some ⟨"d", "a", 2, 1⟩ := by decide +kernel
-    have h2 : ltE (I.g.hi 1) (maxR (0 + 2) (I.g.lo 1)) = true := by decide +kernel
-    rw [h1] at hf
-    simp only [h2, if_true] at hf
-    simp at hf
-  · have h1 : I.g.arc? 0 j = none := by
-      simp [Graph.arc?, dictGet, I, g, List.find?, Ne.symm hj]
-    rw [h1] at hf
-    simp at hf
+/-- the reference vehicle leaves when the depot opens, at time −5, reaches the customer at −3 (inside `[-4, -2]`)
+    and is back at −2: the route `d-a-d` is valid (with the clock pinned to 0 it reached the customer at 2, after
+    its window closed, and no route was valid) -/
+theorem valid_dad : C06.ValidRoute I.g 0 0 [0, 1, 0] := by unfold C06.ValidRoute; decide +kernel
 
-theorem completeGrid : CompleteGrid I 0 0 := fun r hr => absurd hr (no_valid_route r)
+/-- … and it is the only valid route -/
+theorem valid_routes (r : List ℕ) (hr : C06.ValidRoute I.g 0 0 r) : r = [0, 1, 0] := by
+  obtain ⟨j, rest, rfl, hnd, hlast⟩ := Compose2.validRoute_shape hr
+  obtain ⟨c, hc⟩ := Option.isSome_iff_exists.1 hr.2.2.2.2
+  simp only [List.tail_cons] at hc
+  have hb := (C06.follow_bound I.g inv 0 _ _ _ _ _ _ hc).1
+  have harcs := follow_arcs I.g 0 _ _ _ _ _ _ hc
+  have h2 : I.g.nodes.length = 2 := rfl
+  rw [h2] at hb
+  have key : ∀ a < 2, ∀ b < 2, I.g.hasArc a b = true → (a = 0 ∧ b = 1) ∨ (a = 1 ∧ b = 0) := by decide +kernel
+  have hj : j = 1 := by
+    have := key 0 (by omega) j (hb j (by simp)) (by simpa using harcs 0 (by simp))
+    omega
+  subst hj
+  match rest, hnd, hlast, hb, harcs with
+  | [], _, hlast, _, _ => simp at hlast
+  | k :: rest', hnd, hlast, hb, harcs =>
+    have hk : k = 0 := by
+      have := key 1 (by omega) k (hb k (by simp)) (by simpa using harcs 1 (by simp))
+      omega
+    subst hk
+    match rest', hnd, hb, harcs with
+    | [], _, _, _ => rfl
+    | l :: rest'', hnd, hb, harcs =>
+      exfalso
+      have hl : l = 1 := by
+        have := key 0 (by omega) l (hb l (by simp)) (by simpa using harcs 2 (by simp))
+        omega
+      subst hl
+      simp at hnd
+
+/-- the grid `[-5, -3, -2]` holds the service times of the only valid route -/
+theorem completeGrid : CompleteGrid I 0 0 := by
+  intro r hr
+  rw [valid_routes r hr]
+  decide +kernel
 
 end ArcCounter
 
-/-- the original statement is false: in `ArcCounter.I` the depot window opens at −5, the vector `ArcCounter.x`
-    is feasible (leave the depot at −5, serve the customer at −3, be back at −2) but no reference route is valid -/
-theorem arc_complete_grid_eq_reference_original_false : ¬ arc_complete_grid_eq_reference_original_statement := by
-  intro h
-  obtain ⟨rs, hrs, _⟩ := (h ArcCounter.I ArcCounter.wf ArcCounter.pos 0 0 ArcCounter.capFree
-    (by decide +kernel) (by decide +kernel) (by decide +kernel) ArcCounter.completeGrid 2).1
+/-- on `ArcCounter.I` (depot window opens at −5) all hypotheses of `arc_complete_grid_eq_reference` hold, the vector
+    `ArcCounter.x` is feasible with cost 2 (leave the depot at −5, serve the customer at −3, be back at −2), and
+    the reference problem has the partition `[d-a-d]` of cost 2.  With the reference clock pinned to the literal
+    time 0 this instance refuted the statement (no reference route was valid). -/
+example : ∃ rs, IsPartition ArcCounter.I.g 0 0 rs ∧ partitionCost ArcCounter.I.g 0 0 rs = 2 :=
+  (arc_complete_grid_eq_reference ArcCounter.I ArcCounter.wf ArcCounter.pos 0 0 ArcCounter.capFree
+    (by decide +kernel) ArcCounter.completeGrid 2).1
     ⟨ArcCounter.x, ArcCounter.hbin, ArcCounter.hfeas, ArcCounter.hobj⟩
-  obtain ⟨r, hr, _, _⟩ := C05.filter_length_one_unique rs _
-    (hrs.2.2 1 le_rfl (by decide +kernel))
-  exact ArcCounter.no_valid_route r (hrs.1 r hr)
+
+example : partitionCost ArcCounter.I.g 0 0 [[0, 1, 0]] = 2 := by decide +kernel
 
 /-- **strict sequence-based ≥ reference**: every walk assignment of the strict model (capacity not binding,
-    surcharges 0, depot self-arc of cost 0 and time 0) is a reference partition of equal cost -/
+    surcharges 0, depot self-arc of cost 0 and time 0) is a reference partition of equal cost (both clocks,
+    `C07.arrival` and that of `C06.ValidRoute`, start when the depot opens; no hypothesis on the depot's window) -/
 theorem seq_strict_ge_reference (I : SeqInst) (cap init : ℚ) (hL : 3 ≤ I.L) (hg : C15.Inv I.g)
-    (hstrict : C07.StrictArcs I.g) (hcf : CapFree I.g cap init) (hlo : 0 ≤ I.g.lo 0) (hlo0 : I.g.lo 0 ≤ 0)
+    (hstrict : C07.StrictArcs I.g) (hcf : CapFree I.g cap init)
     (h00 : C07.arcTime I.g 0 0 = 0) (hc00 : C07.arcCost I.g 0 0 = 0) (hvc : ∀ v, I.vc v = 0)
     (w : ℕ → ℕ → ℕ) (hw : C07.Walk I w) :
     ∃ rs, IsPartition I.g cap init rs ∧
       partitionCost I.g cap init rs
         = sumTo I.V fun v => sumTo (I.L - 1) fun p => C07.arcCost I.g (w v p) (w v (p + 1)) + I.vc v := by
   classical
-  have _ := hlo0
   -- first return position `m v` of every vehicle
   have hret : ∀ v, ∃ m, v < I.V →
       (1 ≤ m ∧ m + 1 ≤ I.L ∧ w v m = 0 ∧ ∀ q, 1 ≤ q → q < m → w v q ≠ 0) := by
@@ -306,11 +319,11 @@ theorem seq_strict_ge_reference (I : SeqInst) (cap init : ℚ) (hL : 3 ≤ I.L) 
     exact Prod.mk.inj (e1.trans e2.symm)
   let route : ℕ → List ℕ := fun v => 0 :: (List.range' 1 (m v)).map (w v)
   -- `follow` along the prefix
-  have hfol : ∀ v, v < I.V → C06.follow I.g cap 0 ((List.range' 1 (m v)).map (w v)) 0 init 0
+  have hfol : ∀ v, v < I.V → C06.follow I.g cap 0 ((List.range' 1 (m v)).map (w v)) (I.g.lo 0) init 0
       = some (∑ q ∈ Finset.range (m v), C07.arcCost I.g (w v q) (w v (q + 1))) := by
     intro v hv
     have h := Compose2.follow_walk I.g cap hcf.dem (w v) I.L (hw.arcs v hv)
-      (fun p hp => C07.strict_walk_time_feasible I hstrict hg hlo h00 w hw v hv p hp)
+      (fun p hp => C07.strict_walk_time_feasible I hstrict hg h00 w hw v hv p hp)
       (m v) 0 init 0 (by have := (hm v hv).2.1; omega) hcf.init0 hcf.initc
     rw [hw.start v hv] at h
     simpa [C07.arrival] using h
@@ -441,7 +454,7 @@ def nv_x0 : Vec := vecOf [1, 0, 0, 0, 0, 0, 1, 0, 0, 1]
 theorem nv_I0_eq (c : ℚ) : (∃ x, IsBin nv_I0.data.n x ∧ nv_I0.data.feasibleB x = true ∧ nv_I0.data.objective x = c)
     ↔ (∃ rs, IsPartition nv_I0.g 0 0 rs ∧ partitionCost nv_I0.g 0 0 rs = c) :=
   arc_complete_grid_eq_reference nv_I0 nv_I0_wf (by unfold C05.PosTimes; decide +kernel) 0 0
-    (nv_capFree _ (by decide +kernel)) (by decide +kernel) (by decide +kernel) (by decide +kernel) (by decide +kernel)
+    (nv_capFree _ (by decide +kernel)) (by decide +kernel)
     nv_I0_grid c
 
 example : ∃ rs, IsPartition nv_I0.g 0 0 rs ∧ partitionCost nv_I0.g 0 0 rs = 4 :=
@@ -460,7 +473,7 @@ example : ∃ x, IsBin nv_I0.data.n x ∧ nv_I0.data.feasibleB x = true ∧ nv_I
     `C15.nv_g0`, two vehicles, four positions) and the walk `C07.nv_w` (`d, a, b, d` / depot only): cost 4 -/
 example : ∃ rs, IsPartition C07.nv_St.g 0 0 rs ∧ partitionCost C07.nv_St.g 0 0 rs = 4 := by
   have h := seq_strict_ge_reference C07.nv_St 0 0 (by decide) C07.nv_St_strict.2 C07.nv_St_strict.1
-    (nv_capFree _ (by decide +kernel)) (by decide +kernel) (by decide +kernel) (by decide +kernel) (by decide +kernel)
+    (nv_capFree _ (by decide +kernel)) (by decide +kernel) (by decide +kernel)
     (fun v => by match v with | 0 => rfl | 1 => rfl | _ + 2 => rfl) C07.nv_w C07.nv_walk_t
   rwa [show (sumTo C07.nv_St.V fun v => sumTo (C07.nv_St.L - 1) fun p =>
     C07.arcCost C07.nv_St.g (C07.nv_w v p) (C07.nv_w v (p + 1)) + C07.nv_St.vc v) = 4 by decide +kernel] at h
